@@ -660,6 +660,23 @@ theorem dist2_reverse (a b : List K) (h : a.length = b.length) : dist2 a.reverse
 theorem pointAt_mem (axes : List (List K)) (idx : List Nat) (h : IdxOk axes idx) : pointAt axes idx ∈ tensorPts axes :=
   List.mem_of_getElem? (tensorPts_getElem?_ravel axes idx h)
 
+theorem take_drop_getElem? {α : Type} (v : List α) (a m f : Nat) (hf : f < m) :
+    ((v.drop a).take m)[f]? = v[a + f]? := by
+  simp [List.getElem?_take, hf]
+
+theorem mem_tensorPts_pointAt : ∀ (axes : List (List K)) (t : List K), t ∈ tensorPts axes →
+    ∃ idx, IdxOk axes idx ∧ t = pointAt axes idx := by
+  intro axes
+  induction axes with
+  | nil => intro t ht; simp [tensorPts] at ht; exact ⟨[], trivial, by simp [ht, pointAt]⟩
+  | cons ax rest ih =>
+    intro t ht
+    simp only [tensorPts, List.mem_flatMap, List.mem_map] at ht
+    obtain ⟨a, ha, t', ht', rfl⟩ := ht
+    obtain ⟨idx, hok, rfl⟩ := ih t' ht'
+    obtain ⟨i, hi, rfl⟩ := List.getElem_of_mem ha
+    exact ⟨i :: idx, ⟨hi, hok⟩, by simp [pointAt, List.getD_eq_getElem?_getD, hi]⟩
+
 /-! ### supersampling -/
 
 /-- the dithers all have `D` coordinates and add up to the zero vector -/
